@@ -30,4 +30,139 @@ theorem Sl.sliceFrom_ok {s : Sl} {a : Nat} (ha : a ≤ s.vis.length) :
   rw [Sl.slice_ok ha (Nat.le_refl _)]
   simp [List.take_of_length_le, List.length_drop]
 
+
+@[simp] theorem pure_eq_ok {α} (a : α) : (pure a : Res α) = .ok a := rfl
+
+/-! ## Simulation of two runs: same non-panicking outcome up to a relation on the values -/
+
+inductive Sim {α β : Type} (R : α → β → Prop) : Res α → Res β → Prop
+  | ok {a : α} {b : β} (h : R a b) : Sim R (.ok a) (.ok b)
+  | err (e : String) : Sim R (.err e) (.err e)
+
+theorem Sim.bind {α β γ δ : Type} {R : α → β → Prop} {S : γ → δ → Prop}
+    {r1 : Res α} {r2 : Res β} {f : α → Res γ} {g : β → Res δ}
+    (h : Sim R r1 r2) (hf : ∀ a b, R a b → Sim S (f a) (g b)) : Sim S (r1 >>= f) (r2 >>= g) := by
+  cases h with
+  | ok h => exact hf _ _ h
+  | err e => exact Sim.err e
+
+theorem Sim.mono {α β : Type} {R S : α → β → Prop} {r1 : Res α} {r2 : Res β}
+    (h : Sim R r1 r2) (hrs : ∀ a b, R a b → S a b) : Sim S r1 r2 := by
+  cases h with
+  | ok h => exact Sim.ok (hrs _ _ h)
+  | err e => exact Sim.err e
+
+theorem Sim.eq_and_no_panic {α : Type} {r1 r2 : Res α} (h : Sim Eq r1 r2) :
+    r1 = r2 ∧ ∀ k, r1 ≠ .panic k := by
+  cases h with
+  | ok h => subst h; exact ⟨rfl, fun k hk => by cases hk⟩
+  | err e => exact ⟨rfl, fun k hk => by cases hk⟩
+
+theorem Sim.no_panic {α β : Type} {R : α → β → Prop} {r1 : Res α} {r2 : Res β} (h : Sim R r1 r2) :
+    ∀ k, r1 ≠ .panic k := by
+  cases h with
+  | ok h => exact fun k hk => by cases hk
+  | err e => exact fun k hk => by cases hk
+
+/-- two views of the same visible bytes (possibly different capacity / foreign bytes) -/
+def SameVis (s t : Sl) : Prop := s.vis = t.vis
+
+/-- same visible bytes, of a known length -/
+def SameVisLen (n : Nat) (s t : Sl) : Prop := s.vis = t.vis ∧ s.vis.length = n
+
+theorem sim_idx {s t : Sl} (h : SameVis s t) {i : Nat} (hi : i < s.vis.length) :
+    Sim Eq (s.idx i) (t.idx i) := by
+  have hv : s.vis = t.vis := h
+  have ht : i < t.vis.length := by rw [← hv]; exact hi
+  rw [Sl.idx_ok hi, Sl.idx_ok ht]
+  exact Sim.ok (by simp [hv])
+
+theorem sim_slice {s t : Sl} (h : SameVis s t) {a b : Nat} (hab : a ≤ b) (hb : b ≤ s.vis.length) :
+    Sim (SameVisLen (b - a)) (s.slice a b) (t.slice a b) := by
+  have hv : s.vis = t.vis := h
+  have ht : b ≤ t.vis.length := by rw [← hv]; exact hb
+  rw [Sl.slice_ok hab hb, Sl.slice_ok hab ht]
+  refine Sim.ok ⟨by simp [hv], ?_⟩
+  simp [List.length_take, List.length_drop]; omega
+
+theorem sim_sliceFrom {s t : Sl} (h : SameVis s t) {a : Nat} (ha : a ≤ s.vis.length) :
+    Sim SameVis (s.sliceFrom a) (t.sliceFrom a) := by
+  have hv : s.vis = t.vis := h
+  have ht : a ≤ t.vis.length := by rw [← hv]; exact ha
+  rw [Sl.sliceFrom_ok ha, Sl.sliceFrom_ok ht]
+  exact Sim.ok (by simp [SameVis, hv])
+
+theorem sim_u16 {s t : Sl} {n : Nat} (h : SameVisLen n s t) (hn : 2 ≤ n) : Sim Eq (u16 s) (u16 t) := by
+  obtain ⟨h1, h2⟩ := h
+  unfold u16
+  refine Sim.bind (sim_idx h1 (by omega)) fun a b hab => ?_
+  refine Sim.bind (sim_idx h1 (by omega)) fun c d hcd => ?_
+  subst hab hcd; exact Sim.ok rfl
+
+theorem sim_u32 {s t : Sl} {n : Nat} (h : SameVisLen n s t) (hn : 4 ≤ n) : Sim Eq (u32 s) (u32 t) := by
+  obtain ⟨h1, h2⟩ := h
+  unfold u32
+  refine Sim.bind (sim_idx h1 (by omega)) fun a b hab => ?_
+  refine Sim.bind (sim_idx h1 (by omega)) fun c d hcd => ?_
+  refine Sim.bind (sim_idx h1 (by omega)) fun e f hef => ?_
+  refine Sim.bind (sim_idx h1 (by omega)) fun g h hgh => ?_
+  subst hab hcd hef hgh; exact Sim.ok rfl
+
+theorem sim_u64 {s t : Sl} {n : Nat} (h : SameVisLen n s t) (hn : 8 ≤ n) : Sim Eq (u64 s) (u64 t) := by
+  obtain ⟨h1, h2⟩ := h
+  unfold u64
+  refine Sim.bind (sim_idx h1 (by omega)) fun _ _ h0 => ?_
+  refine Sim.bind (sim_idx h1 (by omega)) fun _ _ h1' => ?_
+  refine Sim.bind (sim_idx h1 (by omega)) fun _ _ h2' => ?_
+  refine Sim.bind (sim_idx h1 (by omega)) fun _ _ h3 => ?_
+  refine Sim.bind (sim_idx h1 (by omega)) fun _ _ h4 => ?_
+  refine Sim.bind (sim_idx h1 (by omega)) fun _ _ h5 => ?_
+  refine Sim.bind (sim_idx h1 (by omega)) fun _ _ h6 => ?_
+  refine Sim.bind (sim_idx h1 (by omega)) fun _ _ h7 => ?_
+  subst h0 h1' h2' h3 h4 h5 h6 h7; exact Sim.ok rfl
+
+theorem sim_sliceIf {s t : Sl} (h : SameVis s t) {c : Bool} {a b : Nat}
+    (hc : c = true → a ≤ b ∧ b ≤ s.vis.length) : Sim Eq (sliceIf c s a b) (sliceIf c t a b) := by
+  unfold sliceIf
+  cases c with
+  | false => exact Sim.ok rfl
+  | true =>
+    obtain ⟨h1, h2⟩ := hc rfl
+    simp only [if_true]
+    refine Sim.bind (sim_slice h h1 h2) fun x y hxy => ?_
+    exact Sim.ok hxy.1
+
+theorem sim_u16If {s t : Sl} (h : SameVis s t) {c : Bool} {a b : Nat}
+    (hc : c = true → a + 2 ≤ b ∧ b ≤ s.vis.length) : Sim Eq (u16If c s a b) (u16If c t a b) := by
+  unfold u16If
+  cases c with
+  | false => exact Sim.ok rfl
+  | true =>
+    obtain ⟨h1, h2⟩ := hc rfl
+    simp only [if_true]
+    refine Sim.bind (sim_slice h (by omega) h2) fun x y hxy => ?_
+    exact sim_u16 hxy (by omega)
+
+theorem sim_u32If {s t : Sl} (h : SameVis s t) {c : Bool} {a b : Nat}
+    (hc : c = true → a + 4 ≤ b ∧ b ≤ s.vis.length) : Sim Eq (u32If c s a b) (u32If c t a b) := by
+  unfold u32If
+  cases c with
+  | false => exact Sim.ok rfl
+  | true =>
+    obtain ⟨h1, h2⟩ := hc rfl
+    simp only [if_true]
+    refine Sim.bind (sim_slice h (by omega) h2) fun x y hxy => ?_
+    exact sim_u32 hxy (by omega)
+
+theorem sim_readIds {s t : Sl} (h : SameVis s t) (k : Nat) : ∀ i, i + k ≤ s.vis.length →
+    Sim Eq (readIds s i k) (readIds t i k) := by
+  induction k with
+  | zero => intro i _; exact Sim.ok rfl
+  | succ k ih =>
+    intro i hi
+    unfold readIds
+    refine Sim.bind (sim_idx h (by omega)) fun a b hab => ?_
+    refine Sim.bind (ih (i + 1) (by omega)) fun c d hcd => ?_
+    subst hab hcd; exact Sim.ok rfl
+
 end Gp.Tcp
